@@ -82,11 +82,65 @@ def check(model: Model, run: Run) -> None:
         run.fail(Finding("Q2-stream-reader-only-validated-reads", "sansldap._messages.unpack_ldap_message", f"methods={sorted(methods - allowed)}|escapes={escapes[:2]}",
                          "the stream-level reader is used for something other than validated reads (skip_value/get_remaining_data advance without checking that the bytes are there)", ""))
     lemma_no_consume_on_failure(model, run, "C06")
-    # only receive's wait handlers may swallow NotEnougData on the way
-    for fq, f2 in model.functions.items():
+    # any other handler on the receive path that swallows NotEnougData must obey the same provenance rule
+    for fq, f2 in list(model.functions.items()):
         if f2 is fi or isinstance(f2.node, ast.Lambda) or (fq, None) not in mr.summ:
             continue
         for t2, h2 in wait_handlers(model, f2):
-            run.ob("Q3-no-other-swallowing-handler", False)
-            run.fail(Finding("Q3-no-other-swallowing-handler", fq, f"except {norm(h2.type)}", "a handler below receive swallows NotEnougData without turning it into an error", model.loc(f2.module, h2)))
-    run.ob("Q3-no-other-swallowing-handler", True)
+            locals2 = set()
+            for n in walk_no_nested(f2.node):
+                if isinstance(n, ast.Assign) and isinstance(n.value, ast.Call) and model.resolve_name(f2.module, norm(n.value.func)) == "sansldap.asn1.ASN1Reader":
+                    a0 = n.value.args[0] if n.value.args else None
+                    # a fresh reader over the pending bytes (buffer attribute or the data parameter), not over a decoded value
+                    if a0 is not None and (norm(a0).startswith("self._incoming") or (isinstance(a0, ast.Name) and a0.id in f2.params())):
+                        for tg in n.targets:
+                            if isinstance(tg, ast.Name):
+                                locals2.add(tg.id)
+            ctx2 = {"fi": f2, "self_cls": None, "key": (fq, None), "caught": frozenset(), "handler_var": None}
+            escs2 = [e for e in mr.block(t2.body, ctx2) if e.exc == NOT_ENOUGH]
+            def fresh_ok(pv: str) -> bool:
+                return pv.startswith("fresh:") and (pv[6:].startswith("self._incoming") or pv[6:] in f2.params())
+            bad2 = [e for e in escs2 if not ((e.prov.startswith("local:") and e.prov[6:] in locals2) or fresh_ok(e.prov))]
+            run.ob("Q3-other-swallowing-handlers", not bad2, {"function": fq, "origins": len(escs2)})
+            if bad2:
+                run.fail(Finding("Q3-other-swallowing-handlers", fq, f"except {norm(h2.type)}|prov={bad2[0].prov}",
+                                 "a handler on the receive path swallows a NotEnougData that was not raised on a fresh reader over the pending bytes", model.loc(f2.module, h2),
+                                 [x.short() for x in bad2[:8]]))
+    # Q4: receive must reach the decode phase: no early return other than for empty input
+    body = fi.node.body
+    rets = [n for n in walk_no_nested(fi.node) if isinstance(n, ast.Return)]
+    final = body[-1] if body and isinstance(body[-1], ast.Return) else None
+    for r in rets:
+        if r is final:
+            continue
+        conds = enclosing_tests(fi.node, r)
+        names = set()
+        for c in conds:
+            names |= {x.id for x in ast.walk(c) if isinstance(x, ast.Name)} | {"self." + x.attr for x in ast.walk(c) if isinstance(x, ast.Attribute) and isinstance(x.value, ast.Name) and x.value.id == "self"}
+        data_param = fi.params()[1] if len(fi.params()) > 1 else "data"
+        ok = bool(conds) and names <= {data_param, "len"}
+        run.ob("Q4-no-early-return-with-pending-bytes", ok, {"return": norm(r), "conditions": [norm(c) for c in conds]})
+        if not ok:
+            run.fail(Finding("Q4-no-early-return-with-pending-bytes", fi.qualname, f"{norm(r)} under {[norm(c)[:60] for c in conds]}",
+                             "receive can return before the decode loop has looked at the pending bytes, under a condition that is not just 'no new data': "
+                             "a complete PDU can then sit in the buffer while [] is returned", model.loc(fi.module, r)))
+    run.ob("Q4-no-early-return-with-pending-bytes", True)
+
+
+def enclosing_tests(func: ast.AST, target: ast.AST):
+    """Tests of the if/while statements that enclose `target`."""
+    out = []
+
+    def visit(node, stack):
+        if node is target:
+            out.extend(stack)
+            return True
+        for ch in ast.iter_child_nodes(node):
+            st = stack
+            if isinstance(node, (ast.If, ast.While)) and ch is not node.test:
+                st = stack + [node.test]
+            if visit(ch, st):
+                return True
+        return False
+    visit(func, [])
+    return out
